@@ -36,7 +36,9 @@ Definition is_pow (e : expr) := match e with EPow _ _ => true | _ => false end.
 (* no unary operator directly over an unparenthesised power, anywhere *)
 Fixpoint uop_free (e : expr) : bool :=
   match e with
-  | ELit _ _ | ELitF _ _ | EVar _ | ESVar _ => true
+  | ELit _ _ | ELitF _ _ | EVar _ | ESVar _ | EGlob _ _ => true
+  | ECall _ _ _ _ _ body a b =>
+      uop_free body && uop_free a && match b with Some e => uop_free e | None => true end
   | EParen a | ECast _ a => uop_free a
   | ENeg a | ENot a => uop_free a && negb (is_pow a)
   | EPow a b | EArith _ a b | ECmp _ a b | EAnd a b | EOr a b => uop_free a && uop_free b
@@ -55,7 +57,9 @@ Section Static.
     match e with
     | ELit t _ => hint_matches hint (TI t)
     | ELitF t _ => hint_matches hint (TF t)
-    | EVar _ | ESVar _ => true
+    | EVar _ | ESVar _ | EGlob _ _ => true
+    | ECall _ t _ _ _ body a b =>
+        hint_ok None body && hint_ok (Some t) a && match b with Some e => hint_ok (Some t) e | None => true end
     | EParen a | ENeg a | ENot a => hint_ok hint a
     | EPow a b | EArith _ a b | ECmp _ a b => hint_ok hint a && hint_ok (ety a) b
     | EAnd a b | EOr a b => hint_ok hint a && hint_ok hint b
@@ -64,7 +68,9 @@ Section Static.
 
   Fixpoint float_mod_free (e : expr) : bool :=
     match e with
-    | ELit _ _ | ELitF _ _ | EVar _ | ESVar _ => true
+    | ELit _ _ | ELitF _ _ | EVar _ | ESVar _ | EGlob _ _ => true
+    | ECall _ _ _ _ _ body a b =>
+        float_mod_free body && float_mod_free a && match b with Some e => float_mod_free e | None => true end
     | EParen a | ENeg a | ENot a | ECast _ a => float_mod_free a
     | EArith AMod a b => float_mod_free a && float_mod_free b && match ety a with Some (TF _) => false | _ => true end
     | EPow a b | EArith _ a b | ECmp _ a b | EAnd a b | EOr a b => float_mod_free a && float_mod_free b
@@ -103,7 +109,10 @@ Section Static.
     end.
 End Static.
 
-Definition static_flags (f : func) : list tag := sflags_block (f_tys f) (f_body f).
+(* the function's own text and the text of every helper function of the program *)
+Definition static_flags (f : func) : list tag :=
+  sflags_block (f_tys f) (f_body f) ++
+  flat_map (fun h => let '(_, _, _, _, body) := h in sflags_expr (f_tys f) None body) (f_helpers f).
 
 (* ------------------------------------------------------------------ dynamic *)
 Definition narrow (t : ity) : bool := bits t <? 32.
@@ -145,7 +154,18 @@ Section Dyn.
   (* flags of the operations evaluated by [eval r e], in evaluation order *)
   Fixpoint dflags (r : env fo) (e : expr) : list tag :=
     match e with
-    | ELit _ _ | ELitF _ _ | EVar _ | ESVar _ => []
+    | ELit _ _ | ELitF _ _ | EVar _ | ESVar _ | EGlob _ _ => []
+    | ECall _ t d p q body a b =>
+        dflags r a ++
+        match eval r a with
+        | Ok va =>
+            match b with Some e => dflags r e | None => [] end ++
+            match (match b with Some e => eval r e | None => Ok (const_val fo t d) end) with
+            | Ok vb => dflags (upd fo (upd fo r p va) q vb) body
+            | _ => []
+            end
+        | _ => []
+        end
     | EParen a | ENot a => dflags r a
     | ENeg a =>
         dflags r a ++
